@@ -2,6 +2,7 @@
 from hypothesis import strategies as st
 
 from .. import calls, canon, entries, gen
+from ..env import JOINS, mk_tok, ssj
 from ..runner import Component
 from . import c04, c05
 
@@ -134,4 +135,138 @@ class Projection(Component):
         ctx.label("rows>0", len(rows) > 0)
 
 
-COMPONENTS = [Projection()]
+@st.composite
+def wide_case(draw, tier):
+    from .c02 import large_case
+    case = draw(large_case(tier))
+    case["nl"] = min(case["nl"], 150)
+    case["nr"] = min(case["nr"], 150)
+    case["ncols"] = draw(st.integers(4, 14))
+    case["perm_seed"] = draw(st.integers(0, 10 ** 6))
+    case["nreq"] = draw(st.integers(1, 12))
+    case["entry"] = draw(st.sampled_from(["join", "join", "size", "position", "overlap"]))
+    case["score"] = draw(st.booleans())
+    return case
+
+
+class Wide(Component):
+    """Wide tables (4-14 extra columns of mixed dtypes in shuffled order, 40-150 rows, 64-bit
+    keys, non-default index) with long attribute requests in arbitrary order, duplicates
+    included, on both sides."""
+    name = "wide"
+    kind = "hyp"
+    rule = ">=2 requested attributes in non-table order on some side and >=1 output row"
+
+    def examples(self, tier):
+        return 10 if tier == "quick" else 60
+
+    def strategy(self, tier):
+        return wide_case(tier)
+
+    def check(self, case, ctx):
+        import random
+
+        import pandas as pd
+        from .c02 import large_tables
+        L, R, lv, rv = large_tables(case["seed"], case["nl"], case["nr"], case["vocab"],
+                                    case["maxtok"])
+        rnd = random.Random(case["perm_seed"])
+
+        def widen(T, side):
+            n = len(T)
+            cols = {}
+            for c in range(case["ncols"]):
+                kind = c % 5
+                name = "%s_c%d" % (side, c)
+                if kind == 0:
+                    cols[name] = [2 ** 61 + 11 * i + c for i in range(n)]
+                elif kind == 1:
+                    cols[name] = [None if (i + c) % 6 == 0 else i * 0.25 for i in range(n)]
+                elif kind == 2:
+                    cols[name] = pd.Series([None if (i + c) % 5 == 0 else "s%d_%d" % (c, i % 9)
+                                            for i in range(n)], dtype=object).values
+                elif kind == 3:
+                    cols[name] = [(i + c) % 2 == 0 for i in range(n)]
+                else:
+                    cols[name] = pd.to_datetime(["2001-01-%02d" % (1 + (i + c) % 28)
+                                                 for i in range(n)])
+            W = T.copy()
+            idx = W.index
+            W = W.reset_index(drop=True)
+            for k, v in cols.items():
+                W[k] = v
+            order = list(W.columns)
+            rnd.shuffle(order)
+            W = W[order]
+            W.index = idx
+            return W
+
+        L, R = widen(L, "l"), widen(R, "r")
+        lreq = [rnd.choice(list(L.columns)) for _ in range(case["nreq"])]
+        rreq = [rnd.choice(list(R.columns)) for _ in range(max(1, case["nreq"] // 2))]
+        m = case["measure"]
+        t = max(1, case["tgrid"] // 12) if m == "OVERLAP" else case["tgrid"] / 100.0
+        nj = case["n_jobs"]
+        tok = mk_tok({"kind": "ws", "return_set": True})
+        e = case["entry"]
+        with calls.backend(nj):
+            if e == "join":
+                if m == "OVERLAP":
+                    df = ctx.lib(JOINS[m], L, R, "key", "key", "val", "val", tok, t, ">=",
+                                 case["allow_missing"], lreq, rreq, "l_", "r_", case["score"],
+                                 nj, False)
+                else:
+                    df = ctx.lib(JOINS[m], L, R, "key", "key", "val", "val", tok, t, ">=", True,
+                                 case["allow_missing"], lreq, rreq, "l_", "r_", case["score"],
+                                 nj, False)
+                has_score = case["score"]
+            else:
+                mm = "JACCARD" if m in ("OVERLAP_COEFFICIENT",) else m
+                if e == "overlap":
+                    f = ssj.OverlapFilter(tok, 1, ">=", case["allow_missing"])
+                    df = ctx.lib(f.filter_tables, L, R, "key", "key", "val", "val", lreq, rreq,
+                                 "l_", "r_", case["score"], nj, False)
+                    has_score = case["score"]
+                else:
+                    cls = ssj.SizeFilter if e == "size" else ssj.PositionFilter
+                    f = cls(tok, mm, t if mm != "OVERLAP" else max(1, case["tgrid"] // 12), True,
+                            case["allow_missing"])
+                    df = ctx.lib(f.filter_tables, L, R, "key", "key", "val", "val", lreq, rreq,
+                                 "l_", "r_", nj, False)
+                    has_score = False
+        if df is None:
+            return
+        la = c05.model_attrs(lreq, "key")
+        ra = c05.model_attrs(rreq, "key")
+        cols = ["_id", "l_key", "r_key"] + ["l_" + a for a in la] + ["r_" + a for a in ra] + \
+            (["_sim_score"] if has_score else [])
+        who = "%s (%s) on wide %dx%d tables, l_out_attrs=%r r_out_attrs=%r n_jobs=%d seed %d" % (
+            e, m, len(L), len(R), lreq, rreq, nj, case["seed"])
+        if [str(c) for c in df.columns] != cols:
+            ctx.violation("entry=%s,kind=wrong-columns" % e, "%s: columns %r, expected %r"
+                          % (who, list(df.columns), cols))
+            return
+        lsrc = dict((c, L[c].tolist()) for c in set(la))
+        rsrc = dict((c, R[c].tolist()) for c in set(ra))
+        lpos = dict((canon.cv(k), i) for i, k in enumerate(L["key"].tolist()))
+        rpos = dict((canon.cv(k), i) for i, k in enumerate(R["key"].tolist()))
+        rows = canon.rows_of(df)
+        for r in rows:
+            if r[1] not in lpos or r[2] not in rpos:
+                ctx.violation("entry=%s,kind=unknown-key" % e, "%s: row names keys (%r, %r) that "
+                              "do not exist" % (who, r[1], r[2]))
+                continue
+            i, j = lpos[r[1]], rpos[r[2]]
+            pos = 3
+            for a, src, ix in [(a, lsrc, i) for a in la] + [(a, rsrc, j) for a in ra]:
+                exp = canon.cv(src[a][ix])
+                if r[pos] != exp:
+                    ctx.violation("entry=%s,kind=wrong-projected-value" % e,
+                                  "%s: row (%r, %r) column %r holds %r, the source row has %r"
+                                  % (who, r[1], r[2], cols[pos], r[pos], exp))
+                pos += 1
+        ctx.nontrivial(len(rows) > 0 and (len(la) >= 2 or len(ra) >= 2))
+        ctx.label("wide:" + e)
+
+
+COMPONENTS = [Projection(), Wide()]
